@@ -203,21 +203,11 @@ theorem filter_uses_raw_bits_unsound : ¬ FilterUsesValues := by
 /-- Row-wise CASE (`specSelRows` of the model). -/
 abbrev specSelectRows {α} := @specSelRows α
 
-/-- Full statement (does NOT hold): CASE takes, row by row, THEN where the condition is TRUE
-and ELSE otherwise. -/
-def SelectPointwise : Prop := ∀ (s : Arr Bool) (a b : Arr Int),
-  a.length = b.length → s.length = a.length →
-  (selectOp s a b).map vals = .ok (specSelectRows (vals s) (vals a) (vals b))
-
-/-- What `select_op` needs to be right on a row: the condition's raw bit is false under NULL,
-and where the condition is FALSE the two branches agree on validity (validity is taken from
-the THEN branch for every non-NULL condition). -/
-def SelectOk {α} (s : Slot Bool) (a b : Slot α) : Prop :=
-  (s.valid = false → s.raw = false) ∧ (s.valid = true → s.raw = false → a.valid = b.valid)
-
-theorem select_pointwise_partial {α} (s : Arr Bool) (a b : Arr α)
-    (h1 : a.length = b.length) (h2 : s.length = a.length)
-    (h : ∀ t ∈ List.zip s (List.zip a b), SelectOk t.1 t.2.1 t.2.2) :
+/-- K for CASE / `select_op` (holds in full since repository commit `fix: CASE/select takes value
+and validity from the branch chosen by a TRUE condition`): row by row THEN where the condition is
+TRUE, ELSE where it is FALSE or NULL — whatever raw bits lie under NULL conditions or branches. -/
+theorem select_pointwise {α} (s : Arr Bool) (a b : Arr α)
+    (h1 : a.length = b.length) (h2 : s.length = a.length) :
     (selectOp s a b).map vals = .ok (specSelectRows (vals s) (vals a) (vals b)) := by
   rw [selectOp_eq s a b h1 h2]
   simp only [KOut.map]
@@ -231,28 +221,16 @@ theorem select_pointwise_partial {α} (s : Arr Bool) (a b : Arr α)
       cases b with
       | nil => simp at h1
       | cons b0 bs =>
-        have h0 := h (s0, a0, b0) (by simp)
         have ih' := ih as bs (by simpa using h1) (by simpa using h2)
-          (fun t ht => h t (by simp [ht]))
         simp only [zip3, vals, List.map_cons, specSelectRows, specSelRows] at ih' ⊢
         rw [ih']
         rcases s0 with ⟨sv, sr⟩
         rcases a0 with ⟨av, ar⟩
         rcases b0 with ⟨bv, br⟩
-        simp only [SelectOk] at h0
-        cases sv <;> cases sr <;> cases av <;> cases bv <;>
-          simp [selSlot, Slot.val, specSelect] at h0 ⊢
+        cases sv <;> cases sr <;> cases av <;> cases bv <;> simp [selSlot, Slot.val, specSelect]
 
-/-- Witness 1: `CASE WHEN FALSE THEN NULL ELSE 7 END` is NULL (validity of the THEN branch). -/
-theorem select_pointwise_unsound : ¬ SelectPointwise := by
-  intro h
-  exact absurd (h [⟨true, false⟩] [⟨false, 0⟩] [⟨true, 7⟩] rfl rfl) (by decide)
-
-/-- Witness 2: `CASE WHEN FALSE THEN 1 ELSE NULL END` is the raw value under the NULL (0),
-not NULL. -/
-theorem select_else_null_unsound :
-    (selectOp [⟨true, false⟩] [⟨true, (1 : Int)⟩] [⟨false, 0⟩]).map vals = .ok [some 0] := by
-  decide
+example : (selectOp [⟨true, false⟩, ⟨false, true⟩] [⟨false, (0 : Int)⟩, ⟨true, 1⟩] [⟨true, 7⟩, ⟨false, 9⟩]).map vals
+    = .ok [some 7, none] := by decide
 
 /-! ## Integer arithmetic -/
 
@@ -483,23 +461,6 @@ theorem or_no_tag (x y : Arr Bool)
   simp only [Bool.and_eq_true] at h
   exact or_pointwise_partial x y (rawFalseUnderNull_of_B x h.1) (rawFalseUnderNull_of_B y h.2)
 
-/-- A CASE node without reason tag denotes row-wise CASE. -/
-theorem select_no_tag {α} (s : Arr Bool) (x y : Arr α) (h1 : x.length = y.length)
-    (h2 : s.length = x.length) (h : selectTags s x y = []) :
-    (selectOp s x y).map vals = .ok (specSelectRows (vals s) (vals x) (vals y)) := by
-  apply select_pointwise_partial s x y h1 h2
-  unfold selectTags at h
-  by_cases hb : selectAllOkB s x y = true
-  · intro t ht
-    simp only [selectAllOkB, List.all_eq_true] at hb
-    have := hb t ht
-    rcases t with ⟨⟨sv, sr⟩, ⟨av, ar⟩, ⟨bv, br⟩⟩
-    simp only [selectOkB] at this
-    simp only [SelectOk]
-    cases sv <;> cases sr <;> cases av <;> cases bv <;> simp_all
-  · simp only [hb, Bool.false_eq_true, if_false] at h
-    split at h <;> exact absurd h (List.cons_ne_nil _ _)
-
 /-- K for casts (no hypothesis): `try_unary_op` casts skip NULL slots, the `unary_op` casts
 are value-correct whatever the raw bits. -/
 theorem cast_pointwise (t : Ty) (c : Col) : (Col.cast t c).map Col.abs = specCast t c.abs :=
@@ -514,8 +475,6 @@ theorem isnull_pointwise (c : Col) :
   isNull_abs c
 
 example : arithTags .add .w32 [⟨true, 1⟩, ⟨false, 0⟩] [⟨true, 2⟩, ⟨true, 5⟩] = [] := by decide
-example : selectTags [⟨true, true⟩, ⟨false, false⟩] [⟨true, (1 : Int)⟩, ⟨false, 9⟩] [⟨false, 0⟩, ⟨true, 3⟩] = [] := by
-  decide
 
 /-! ## Whole expression trees (auxiliary column-level lemmas, then the composition theorem) -/
 
@@ -642,10 +601,10 @@ theorem neg_abs (w : IW) (hw : w ≠ .w16) (x : Arr Int)
   | w64 => simp only [Col.neg]; cases unaryOp (negW .w64) x <;> rfl
 
 theorem select_abs (s : Arr Bool) (w : IW) (x y : Arr Int) (h1 : x.length = y.length)
-    (h2 : s.length = x.length) (h : selectTags s x y = []) :
+    (h2 : s.length = x.length) :
     (Col.select (.bool s) (.int w x) (.int w y)).map Col.abs
       = (specSelM (vals s) (vals x) (vals y)).map (SCol.int w) := by
-  have hs := select_no_tag s x y h1 h2 h
+  have hs := select_pointwise s x y h1 h2
   simp only [Col.select, beq_self_eq_true, if_true]
   have hl : ¬ ((vals x).length ≠ (vals y).length ∨ (vals s).length ≠ (vals x).length) := by
     simp [vals, h1, h2]
@@ -1213,7 +1172,7 @@ theorem eval_tree_pointwise (chunk : List Col) (n : Nat) (hwf : ChunkWF chunk n)
                 · subst hw
                   simp only [beq_self_eq_true, if_true, Col.abs, SCol.asBool] at htg ⊢
                   exact select_abs s wa x y (by simpa [Col.len] using l2.trans l3.symm)
-                    (by simpa [Col.len] using l1.trans l2.symm) htg
+                    (by simpa [Col.len] using l1.trans l2.symm)
                 · have hb : (wa == wb) = false := by simpa using hw
                   simp [Col.select, Col.abs, SCol.asBool, KOut.map, hb]
               | null k => simp [Col.ty] at htg
